@@ -7,6 +7,7 @@ import (
 	"context"
 	"encoding/hex"
 	"fmt"
+	"strings"
 	"sync"
 	"testing"
 
@@ -217,6 +218,100 @@ func TestC13_Gate(t *testing.T) {
 		ev.Case(decoyLayout || st.nestedTuple || st.tupleArray, e.Signature()+fmt.Sprint(desc), fmt.Sprintf("decoyLayout=%v", decoyLayout), fmt.Sprintf("indexed=%d", nIdx))
 		if decoyLayout {
 			ev.Sample(4, map[string]any{"signature": e.Signature(), "indexed": nIdx, "logs": desc})
+		}
+	})
+}
+
+// TestC13_SeveralIntegrations: the hash an integration was built with is its own for
+// as long as it lives — several integrations are built (and arbitrary other data is
+// hashed) before any of them is used; afterwards every held hash value, the topic
+// each integration asks the source for, and the gate of each integration are checked.
+func TestC13_SeveralIntegrations(t *testing.T) {
+	ev := evid.For("C13", "SeveralIntegrations")
+	rapid.Check(t, func(rt *rapid.T) {
+		k := rapid.IntRange(2, 5).Draw(rt, "nintegrations")
+		type one struct {
+			e     *refmodel.Event
+			held  []byte // the slice SignatureHash returned, not copied
+			raw   []byte
+			heldK []byte // the slice eth.Keccak(raw) returned, not copied
+			ig    dig.Integration
+		}
+		var all []*one
+		seen := map[string]bool{}
+		for i := 0; i < k; i++ {
+			e := gen.GenEvent(rt, gen.EventOpts{Types: gen.TypeOpts{MaxDepth: 1, MaxTuple: 2, MaxFixed: 2}, MaxInputs: 3, AllowIndexed: true, SelProb: 60})
+			e.Name = fmt.Sprintf("%s%d", e.Name, i)
+			e.Inputs = append(e.Inputs, &refmodel.Type{Kind: refmodel.KUint, Bits: 256, Name: "extra", Column: "c98"})
+			if seen[e.Signature()] {
+				continue
+			}
+			seen[e.Signature()] = true
+			de := digEvent(e)
+			o := &one{e: e, held: de.SignatureHash(), raw: rapid.SliceOfN(rapid.Byte(), 0, 80).Draw(rt, "raw")}
+			o.heldK = eth.Keccak(o.raw)
+			var cols []wpg.Column
+			for _, s := range e.Selected() {
+				cols = append(cols, wpg.Column{Name: s.Column, Type: "bytea"})
+			}
+			cols = append(cols, wpg.Column{Name: "log_idx", Type: "int"})
+			ig, err := dig.New(fmt.Sprintf("ig%d", i), de, []dig.BlockData{{Name: "log_idx", Column: "log_idx"}}, wpg.Table{Name: "t", Columns: cols}, dig.Notification{}, "or")
+			if err != nil {
+				rt.Fatalf("dig.New: %v", err)
+			}
+			o.ig = ig
+			all = append(all, o)
+		}
+		for i, o := range all {
+			want := o.e.SigHash()
+			if !bytes.Equal(o.held, want) {
+				rt.Fatalf("VERIF-VIOLATION property=C13 the signature hash returned for %s changed to %x after %d other hashes were computed (want %x)", o.e.Signature(), o.held, len(all)-i-1, want)
+			}
+			if w := refmodel.Keccak256(o.raw); !bytes.Equal(o.heldK, w) {
+				rt.Fatalf("VERIF-VIOLATION property=C13 the value Keccak(%x) returned changed to %x after later calls (want %x)", o.raw, o.heldK, w)
+			}
+			f := o.ig.Filter()
+			tp := f.Topics()
+			if len(tp) != 1 || len(tp[0]) != 1 || !strings.EqualFold(strings.TrimPrefix(tp[0][0], "0x"), hex.EncodeToString(want)) {
+				rt.Fatalf("VERIF-VIOLATION property=C13 integration %d of %d (%s) asks the source for topic %v, its signature hash is %x", i, len(all), o.e.Signature(), tp, want)
+			}
+			// the gate: a log of its own event gives rows, a log of every other event gives none
+			for j, other := range all {
+				vals := gen.GenEventValues(rt, other.e, gen.ValueOpts{MaxDynLen: 2, MaxBytes: 20})
+				topics, data := other.e.LogOf(vals)
+				l := eth.Log{Idx: 1, Address: make([]byte, 20), Data: data}
+				for _, x := range topics {
+					l.Topics = append(l.Topics, eth.Bytes(x))
+				}
+				blk := eth.Block{Header: eth.Header{Number: 9, Hash: make([]byte, 32)}}
+				tx := eth.Tx{Idx: 0}
+				tx.Logs = append(tx.Logs, l)
+				blk.Txs = append(blk.Txs, tx)
+				cc := &capConn{}
+				ctx := wctx.WithChainID(wctx.WithSrcName(context.Background(), "src"), 1)
+				var ierr error
+				if p := catch(func() { _, ierr = o.ig.Insert(ctx, new(sync.Mutex), cc, []eth.Block{blk}) }); p != nil {
+					rt.Fatalf("VERIF-VIOLATION property=C13 Insert panicked: %v", p)
+				}
+				wantRows := 0
+				if j == i {
+					wantRows = len(other.e.DataRows(vals))
+				}
+				if ierr == nil && len(cc.rows) != wantRows {
+					rt.Fatalf("VERIF-VIOLATION property=C13 integration for %s emitted %d rows for a log of %s (want %d)", o.e.Signature(), len(cc.rows), other.e.Signature(), wantRows)
+				}
+				if ierr != nil && j == i {
+					rt.Fatalf("VERIF-VIOLATION property=C13 integration for %s fails on its own log: %v", o.e.Signature(), ierr)
+				}
+			}
+		}
+		ev.Case(len(all) >= 2, fmt.Sprint(len(all), all[0].e.Signature()), fmt.Sprintf("integrations=%d", len(all)))
+		if ev.WantSample(3) {
+			var sigs []string
+			for _, o := range all {
+				sigs = append(sigs, o.e.Signature())
+			}
+			ev.Sample(3, sigs)
 		}
 	})
 }
